@@ -39,7 +39,8 @@ PhaseA == /\ pend = <<>>
                LET res == StepOf(S, st)
                IN     /\ S' = res.S
                       /\ hist' = Append(hist, [c |-> st[1], cmd |-> st[2], r |-> res.r, post |-> StateFullJ(res.S),
-                                               dv |-> res.dv, rel |-> res.rel, tol |-> res.tol, real |-> NoReal])
+                                               dv |-> res.dv, rel |-> res.rel, tol |-> res.tol, real |-> NoReal,
+                                               proto |-> IF st[1] = 0 THEN 0 ELSE res.S.conn[st[1]].proto])
                       /\ pend' = IF OpenDev = {} THEN <<>> ELSE <<[st |-> st, r |-> res.r]>>
                       /\ devs' = IF OpenDev = {} THEN {} ELSE OpenDev
                       /\ SR' = IF OpenDev = {} THEN res.S ELSE SR
@@ -49,7 +50,8 @@ PhaseB == /\ pend # <<>>
                  same == res.r = pend[1].r /\ Visible(res.S) = Visible(S)
              IN  /\ hist' = [hist EXCEPT ![Len(hist)].real =
                               IF same THEN NoReal
-                              ELSE [r |-> res.r, post |-> StateFullJ(res.S), dv |-> cumdv \cup res.dv, rel |-> res.rel, tol |-> res.tol]]
+                              ELSE [r |-> res.r, post |-> StateFullJ(res.S), dv |-> cumdv \cup res.dv, rel |-> res.rel, tol |-> res.tol,
+                                    proto |-> IF pend[1].st[1] = 0 THEN 0 ELSE res.S.conn[pend[1].st[1]].proto]]
                  /\ SR' = IF same THEN res.S ELSE S
                  /\ cumdv' = IF same THEN cumdv \cup res.dv ELSE {}
           /\ pend' = <<>>
